@@ -179,6 +179,20 @@ CLAIMS = {
                  "cache key (display text) does not quote literals (counterexample theorem)."),
         "ref": "DESIGN.md §4 C15",
     },
+    "C16": {
+        "technique": "Lean 4 theorems on the scalar-function model (list lemmas for TRIM/SUBSTR/REPLACE incl. fuel sufficiency by induction, base64 round trip by 3-byte induction over a decided 64-entry table, positional-notation correctness of BIN/HEX/OCT by strong induction, composition through the evaluator, totality) + in-process sweep model vs function::get_value + independent Python implementation of the documented meaning + CLI composition",
+        "text": ("Theorems for every argument string: LENGTH counts characters; TRIM/LTRIM/RTRIM remove exactly a maximal white-space run at "
+                 "the respective ends; SUBSTR(s,p), SUBSTR(s,p,n) and SUBSTR(s,-k) are drop/take at the 1-based position resp. the last k "
+                 "characters; REPLACE with a non-empty needle satisfies the left-to-right scanning equations for strings of any length "
+                 "(the model's fuel always suffices) and is the identity when the needle is absent; CONCAT/CONCAT_WS/COALESCE; decoding the "
+                 "base64 encoding of any byte sequence returns it; the digits printed by BIN/HEX/OCT denote the argument (two's complement "
+                 "for negatives); ABS/LEAST/GREATEST; the value of F(G(x)) is F applied to the text of the value of G(x); every call yields a "
+                 "value or a status-2 diagnostic. NOT theorems (external tables/libm/crates, compared with Python on every run): Unicode case "
+                 "mapping of LOWER/UPPER/INITCAP (modelled for ASCII, Latin-1, Cyrillic), POWER/SQRT/LOG/LN/EXP beyond exact cases, "
+                 "FORMAT_TIME, the UTF-8 codec inside the base64 functions, and YEAR/MONTH/DAY/DOW, whose civil-date algorithm is validated "
+                 "against Python's calendar for every day of 1900..2100 (thorough tier) rather than proved."),
+        "ref": "DESIGN.md §4 C16",
+    },
     "C17": {
         "technique": "Lean 4 theorems by mutual structural induction over trees with unlistable directories (walker result = check_file folded over the visible events; error state gains exactly the failing directories; visible events = healed tree's events minus entries with an unlistable proper ancestor; rows depend on events only), content-fault locality over the ~80-arm column evaluator + CLI correspondence run as uid 65534 + fault injection (pipe closed at byte k, strace EPIPE at write k) with a no-crash/status oracle",
         "category": "proof",
